@@ -32,6 +32,7 @@ partial def stermOfSexp : Sexp → Option STerm
   | .list [.sym "A", .str s] => some (.atom s)
   | .list [.sym "N", n] => (natOfSexp n).map .num
   | .list (.sym "F" :: .str g :: args) => (args.mapM stermOfSexp).map (.fn g)
+  | .list (.sym "NF" :: .str g :: args) => (args.mapM stermOfSexp).map (.numfn g)
   | .list (.sym "L" :: items) => (items.mapM stermOfSexp).map .list
   | .list [.sym "P", h, t] => do pure (.lpair (← stermOfSexp h) (← stermOfSexp t))
   | _ => none
@@ -41,6 +42,7 @@ partial def sexpOfSTerm : STerm → Sexp
   | .atom s => .list [.sym "A", .str s]
   | .num n => .list [.sym "N", .sym (toString n)]
   | .fn g args => .list (.sym "F" :: .str g :: args.map sexpOfSTerm)
+  | .numfn g args => .list (.sym "NF" :: .str g :: args.map sexpOfSTerm)
   | .list items => .list (.sym "L" :: items.map sexpOfSTerm)
   | .lpair h t => .list [.sym "P", sexpOfSTerm h, sexpOfSTerm t]
 
